@@ -41,7 +41,9 @@ CLAIMED['C06'] = dict(text='Query.tla models one client node as the chain of sta
              ref='DESIGN.md section 5 C06', technique='TLA+ Query module: TLC safety + liveness MC; TLC-enumerated fault plans replayed on the real node; TLC trace validation')
 CLAIMED['C20'] = dict(text='NoLeak is an invariant of Query.tla (exhaustive for overlapping calls) and is evaluated by TLC on the H4 snapshot taken after a quiet period at the end of every fault-plan run on the real node; capacity bounds and LRU eviction order of the stores come from the Server module (exhaustive for capacities 1-2, random histories with capacities 1-3 validated by TLC); the statistics mirror (DHT size / responders / subnets = aggregate over cached lookups, never negative) and the 1000-entry cache cap are checked by TLC on snapshots taken while more than 1000 distinct lookups of all kinds roll the cache.',
              ref='DESIGN.md section 5 C20', technique='TLA+ Query + Server modules: TLC MC; TLC trace validation of H4 snapshots at quiescence, cache/statistics snapshots and store projections')
-NOTE = {'C06': Q_NOTE, 'C20': Q_NOTE + ' Float sums of the statistics are compared in the harness with relative tolerance 1e-6; TLC compares the integer counters exactly.', 'C08': PUTQ_NOTE, 'C17': PUTQ_NOTE, 'C09': 'Trusted base: TLC; the H4 snapshot projection; the settle-tick argument (state is a fixpoint of input-less ticks at a frozen instant). Replies to expired requests are only required to leave query/table state unchanged.', 'C10': 'Trusted base: TLC; the harness bencode/KRPC codec (independent of serde_bencode); the H3 WireMessage mirror of the crate-private Message.', 'C05': 'Trusted base: TLC; catch_unwind / thread-death detection in the simulator; the shape space is the bounded neighbourhood stated in MC_KrpcShapes plus seeded random mutations - not all byte strings up to the MTU.', 'C16': 'Trusted base: TLC; the lock-step simulator (production actor::run thread); fake peers signing authentic items; arrival order read from the simulator datagram log.', 'C11': RT_NOTE, 'C12': RT_NOTE, 'C19': 'Trusted base: TLC, CommunityModules Bitwise; the harness char->code point conversion. The 2^28 sweep is a Rust comparison against a reference that TLC validates on sampled vectors, not a TLC verdict.', 'C03': SERVER_NOTE, 'C04': SERVER_NOTE, 'C15': SERVER_NOTE + ' CRC32C token forgery by linearity is out of scope (design matter).'}
+CLAIMED['C02'] = dict(text='Auth.tla states which crafted responses may surface (only authentic ones) for every delivery order and loss pattern of Byzantine responders; TLC enumerates every assignment of crafting labels to three responders per lookup kind, the harness realises each label with real keys / hashes on fake peers answering a real lookup, and TLC checks that every item the API yielded re-verifies (harness-side SHA-1 / Ed25519 against the requested target, key, salt, info_hash) and came from an authentic responder; authentic responses not surfacing is reported as drift.',
+             ref='DESIGN.md section 5 C02', technique='TLA+ Auth module: TLC enumeration of Byzantine label assignments replayed on a real lookup + TLC trace validation with independent re-verification')
+NOTE = {'C02': 'Trusted base: TLC; harness crypto (ed25519-dalek, sha1_smol used directly); the fix 66acd98 (key must hash to target) is what makes the wrong_key label fail to surface.', 'C06': Q_NOTE, 'C20': Q_NOTE + ' Float sums of the statistics are compared in the harness with relative tolerance 1e-6; TLC compares the integer counters exactly.', 'C08': PUTQ_NOTE, 'C17': PUTQ_NOTE, 'C09': 'Trusted base: TLC; the H4 snapshot projection; the settle-tick argument (state is a fixpoint of input-less ticks at a frozen instant). Replies to expired requests are only required to leave query/table state unchanged.', 'C10': 'Trusted base: TLC; the harness bencode/KRPC codec (independent of serde_bencode); the H3 WireMessage mirror of the crate-private Message.', 'C05': 'Trusted base: TLC; catch_unwind / thread-death detection in the simulator; the shape space is the bounded neighbourhood stated in MC_KrpcShapes plus seeded random mutations - not all byte strings up to the MTU.', 'C16': 'Trusted base: TLC; the lock-step simulator (production actor::run thread); fake peers signing authentic items; arrival order read from the simulator datagram log.', 'C11': RT_NOTE, 'C12': RT_NOTE, 'C19': 'Trusted base: TLC, CommunityModules Bitwise; the harness char->code point conversion. The 2^28 sweep is a Rust comparison against a reference that TLC validates on sampled vectors, not a TLC verdict.', 'C03': SERVER_NOTE, 'C04': SERVER_NOTE, 'C15': SERVER_NOTE + ' CRC32C token forgery by linearity is out of scope (design matter).'}
 NA_REASON = {}
 
 def main():
